@@ -8,6 +8,7 @@ RULE = ("pool: random client histories (sequential / bursts through gated dials 
         "external session deaths and all reaper ticks k*I up to last op + T + 2I, over I in {1,2,3,5,10,30}s, "
         "T in {1..60}s (T<I, T=I, I not dividing T included), min_idle in {0,1,2,3}; insertions placed exactly `timeout` before a tick; "
         "bpool: histories of new/add/get/close/cleanup_expired/ticks with duplicate and huge seq keys, timeout 0 included; "
+        "big-burst: 12-48 overlapping requests through gated dials (no session of the burst may be closed while it carries its stream); "
         "slow-reaper-pass: bare-pool passes with 2-5 victims of which the first 1-2 sit on transports whose shutdown stalls (close waits 1 s), a "
         "get_idle_session issued 1..1900 ms into the pass (periodic task and cleanup_expired); "
         "poolreal: three real-socket scenarios. Non-trivial = at least one reaper pass after at least one request/insert and >= 3 ops; "
@@ -41,6 +42,9 @@ def gen_cases(tier, seed):
     for i in range(n):
         a = TM.gen_dead_idle_then_quiet(r)
         cs.append(Case("dq%d" % i, "pool", a, "dead-idle-then-quiet", True))
+    for i in range(12 if tier == "quick" else 150):
+        a = TM.gen_big_burst(r)
+        cs.append(Case("bb%d" % i, "pool", a, "big-burst", True))
     n = 40 if tier == "quick" else 600
     for i in range(n):
         a = TM.gen_slow_pass(r)
